@@ -61,7 +61,7 @@ type simCache struct {
 	// counters are kept per client (slot = task id + 1) so that concurrent
 	// clients never write the same word: the wrapper must add neither
 	// synchronisation (it would mask races of the code under test) nor races of its own
-	cnt [40]cacheCounters
+	cnt [2048]cacheCounters
 }
 
 type cacheCounters struct {
